@@ -517,10 +517,10 @@ class JWTSecuredAuthorizationRequest(AuthorizationRequest):
     c_param.update({"request": SINGLE_OPTIONAL_STRING, "request_uri": SINGLE_OPTIONAL_STRING})
 
     def verify(self, **kwargs):
+        # what a message holds as verified is what this verification established
+        clear_verified_claims(self)
         if "request" in self:
             _vc_name = verified_claim_name("request")
-            if _vc_name in self:
-                del self[_vc_name]
 
             args = {}
             for arg in ["keyjar", "opponent_id", "sender", "alg", "encalg", "encenc"]:
@@ -543,10 +543,10 @@ class PushedAuthorizationRequest(AuthorizationRequest):
     c_param.update({"request": SINGLE_OPTIONAL_STRING})
 
     def verify(self, **kwargs):
+        # what a message holds as verified is what this verification established
+        clear_verified_claims(self)
         if "request" in self:
             _vc_name = verified_claim_name("request")
-            if _vc_name in self:
-                del self[_vc_name]
 
             args = {}
             for arg in ["keyjar", "opponent_id", "sender", "alg", "encalg", "encenc"]:
